@@ -209,7 +209,10 @@ def kx(rep, prog):
         prims = []
         for c in cm.ct_eq_calls(f):
             roots = [cm.view_info(f, l)[0] for a in c.args for l in operand_locals(a)]
-            if (set(roots) & s) and any(_is_zero_array(f, a) for a in c.args):
+            # one operand is the X25519 output, the *other* one an all-zero array (the output buffer itself starts
+            # out as zeros: it does not count as the zero operand)
+            others = [a for a in c.args if not any(cm.view_info(f, l)[0] in s for l in operand_locals(a))]
+            if (set(roots) & s) and len(others) == 1 and _is_zero_array(f, others[0]):
                 prims.append(c)
         for c in prims:
             ok, ws = cm.equal_widths(f, c)
